@@ -63,14 +63,26 @@ def init_rules(model, R):
     for s in stmts(f.body):
         if isinstance(s, ast.Assign) and chain(s.targets[0]) and chain(s.targets[0])[-1] == '__class__':
             patches.append((src(s.targets[0]), src(s.value), s))
+    class_patches(R, f, inst, patches)
+
+
+def class_patches(R, f, inst, patches=None, rule='ORDER'):
+    """Atom / Supremum / Infimum classes are assigned so that the bottom of a one-element lattice ends up an Infimum."""
+    if patches is None:
+        patches = []
+        for s in stmts(f.body):
+            if isinstance(s, ast.Assign) and chain(s.targets[0]) and chain(s.targets[0])[-1] == '__class__':
+                patches.append((src(s.targets[0]), src(s.value), s))
     got = {v: t for t, v, _ in patches}
     R.check(got.get('Supremum') == f'{inst}.supremum.__class__' and got.get('Infimum') == f'{inst}.infimum.__class__' and 'Atom' in got,
-            'ORDER', f, patches[0][2] if patches else f.node, 'extremal members get their classes',
+            rule, f, patches[0][2] if patches else f.node, 'extremal members get their classes',
             'atoms -> Atom, supremum -> Supremum, infimum -> Infimum', str(got))
     if len(patches) == 3:
         order = [v for _, v, _ in sorted(patches, key=lambda p: p[2].lineno)]
-        R.check(order.index('Infimum') == 2, 'ORDER', f, patches[0][2], 'Infimum is patched last (one-element lattice: bottom wins)', 'Atom, Supremum, Infimum',
-                str(order))
+        R.check(order.index('Infimum') == 2, rule, f, patches[0][2], 'Infimum is patched last (one-element lattice: bottom wins)', 'Atom, Supremum, Infimum',
+                ', '.join(order), strict=True if set(order) == {'Atom', 'Supremum', 'Infimum'} else None,
+                extra={'consequence': 'in a lattice with a single concept the later assignment wins: the only concept is not an Infimum, '
+                                      'its minimal()/attributes() and bottom-specific behaviour are those of another class'})
 
 
 def fromlist_rules(model, R):
